@@ -17,6 +17,7 @@ import (
 )
 
 func init() {
+	commands["lb-c08"] = func(w string) { runLB(w, "C08") }
 	commands["lb-c16"] = func(w string) { runLB(w, "C16") }
 	commands["lb-c17"] = func(w string) { runLB(w, "C17") }
 	commands["lb-c18"] = func(w string) { runLB(w, "C18") }
@@ -472,7 +473,7 @@ func runLB(work, prop string) {
 		r := newLBRun(e, scheds[i%3])
 		if i%10 == 6 || (prop == "C18" && i%5 == 1) {
 			r.scriptSwap()
-		} else if i%4 == 3 || (prop == "C17" && i%2 == 1) {
+		} else if i%4 == 3 || (prop == "C17" && i%2 == 1) || prop == "C08" {
 			// many live targets: deep heap nodes, long rotations
 			r = newLBRunN(e, scheds[(i/2)%3], 6+e.Rng.Intn(4))
 			r.scriptFull()
